@@ -43,6 +43,8 @@ inductive Cmd
   | none
   | create (name : Bytes)
   | update (name : Bytes) (to : Bytes)
+  /-- a DEPLOY transaction; `addr` = `contract.CreateContractID(account, nonce)` (a SHA-256 value: stated by the harness) -/
+  | deploy (addr : Bytes)
 deriving DecidableEq, Repr
 
 /-- `types.Tx`: the body fields, the carried `Hash`, and three observed attributes (`size` = `proto.Size`,
@@ -203,6 +205,8 @@ structure Ledger where
   names : Names
   /-- name records written by earlier transactions of the same block (read by `GetData` only) -/
   pend : List (Bytes × NameEntry)
+  /-- contract accounts: the creator recorded at deployment (`dbkey.CreatorMeta`), `[]` = not a contract -/
+  creator : Bytes → Bytes
 
 structure World where
   nonce : Bytes → Nat
@@ -430,9 +434,10 @@ def nameValidate (l : Ledger) (t : Tx) (sender : Bytes) : Option Nat :=
   | .update n _ =>
     if namePrice > amount then some cTooSmall
     else if t.account ≠ n ∧ t.account ≠ pendOwner l n then some cOwner else none
-  | .none => some cUnsupported
+  | _ => some cUnsupported
 
-/-- Transfers / calls to accounts without code, and `aergo.name` create/update; fork version ≥ 4, zero fee. -/
+/-- Transfers / calls (accounts without code, stub contracts), stub-contract deployment and `aergo.name`
+create/update; fork version ≥ 4, zero fee. Contract code is the stub VM's: a call with an empty payload does nothing. -/
 def stdBody : Body := fun l t sender =>
   let amount := beNat t.amount
   if t.type = 0 ∨ t.type = 4 ∨ t.type = 5 then
@@ -440,8 +445,22 @@ def stdBody : Body := fun l t sender =>
     if rcpt.isEmpty then
       -- unknown name: a new contract account is created and `Create` fails without code: run-time failure
       (if t.payload.isEmpty then .runtimeFail l else .reject (.body cUnsupported))
+    else if !(l.creator rcpt).isEmpty then
+      -- the recipient is a contract (checkExecution, version ≥ 4)
+      (if t.type = 0 ∨ (t.type = 4 ∧ (!t.payload.isEmpty ∨ amount = 0)) then .runtimeFail l
+       else if !t.payload.isEmpty then .reject (.body cUnsupported)      -- scripted calls: not generated
+       else .ok (move l sender rcpt amount))
     else if t.type = 5 then .runtimeFail l        -- CALL of an account without code: "not found contract"
     else .ok (move l sender rcpt amount)
+  else if t.type = 6 then
+    (match t.cmd with
+     | .deploy addr =>
+       if !(l.creator addr).isEmpty then .reject (.body cUnsupported)
+       else
+         let l1 := move l sender addr amount
+         let cr := upd l1.creator addr sender
+         .ok { l1 with creator := cr }
+     | _ => .reject (.body cUnsupported))
   else if t.type = 1 ∧ t.recipient = aergoName then
     (match nameValidate l t sender with
      | some c => .reject (.body c)
@@ -452,9 +471,11 @@ def stdBody : Body := fun l t sender =>
        | .update n to =>
          if (rawDest l.names n).length ≤ nameLength then .reject (.body cNotCreated)
          else
+           -- `UpdateName`: the owner of a name pointing to a contract is the contract's creator
            let dest := getAddress l.names to
-           .ok { move l sender aergoName amount with pend := l.pend ++ [(n, ⟨dest, dest⟩)] }
-       | .none => .reject (.body cUnsupported))
+           let owner := if (l.creator dest).isEmpty then dest else l.creator dest
+           .ok { move l sender aergoName amount with pend := l.pend ++ [(n, ⟨owner, dest⟩)] }
+       | _ => .reject (.body cUnsupported))
   else .reject (.body cUnsupported)
 
 def cRecipient : Nat := 6
@@ -468,6 +489,7 @@ def stdExtra (W : World) (acc : Bytes) (t : Tx) : Option Nat :=
     else if (getAddress W.led.names t.recipient).isEmpty then some cRecipient
     else none
   else if t.type = 1 ∧ t.recipient = aergoName then nameValidate { W.led with pend := [] } t acc
+  else if t.type = 6 then (if !t.recipient.isEmpty then some cRecipient else none)
   else some cUnsupported
 
 /-! ### An ideal signature scheme and the identity hash, for the executable driver and for non-vacuity examples -/
